@@ -120,7 +120,7 @@ fn run_generic(env: &mut Env, target: Target) -> Outcome {
     }
     let wire = Rc::new(RefCell::new(Wire::new()));
     let cfgrc = Rc::new(RefCell::new(plan.cfg.clone()));
-    let end = ClientEnd::new(wire.clone(), ctxrc.clone(), cfgrc, None);
+    let end = ClientEnd::new(wire.clone(), ctxrc.clone(), cfgrc.clone(), None);
     let link = Link::new(Stream::Raw(end));
     let mut tp = None;
     let mut lk = None;
@@ -189,7 +189,17 @@ fn run_generic(env: &mut Env, target: Target) -> Outcome {
                 }
                 ctxrc.borrow_mut().probe("error_reported");
                 ctxrc.borrow_mut().nontrivial = true;
-                return Outcome::Pass;
+                // the fault is over; what the caller writes next must again be exactly one frame
+                {
+                    let mut c = cfgrc.borrow_mut();
+                    c.write_fail_at = None;
+                    c.eintr_write = 0;
+                    c.zero_write = 0;
+                }
+                if i + 1 < payloads.len() {
+                    ctxrc.borrow_mut().probe("write_after_reported_error");
+                }
+                continue;
             }
         }
     }
